@@ -119,6 +119,8 @@ def rule_pipeline(ctx, rid='R1'):
                 ok = False
                 continue
             side = T.kw(lm, 'side')
+            if side == ('ifexp', METHOD, METHOD, const('left')):
+                side = ('boolop', 'or', (METHOD, const('left')))               # `method if method else 'left'` is `method or 'left'`
             if side != ('boolop', 'or', (METHOD, const('left'))):
                 ctx.violated('R2', fi, T.show(lm)[:150], "the search side must be `method or 'left'`", node=p.node)
                 ok = False
